@@ -208,6 +208,20 @@ CLAIMED["C02"] = {
     "technique": "TLA+ matching semantics evaluated by TLC on TLC-enumerated graphs for query parts exported before and after the real optimiser's rewrites",
 }
 
+CLAIMED["C03"] = {
+    "level": "model_checking",
+    "text": ("SqlScope.tla is a resolver for PostgreSQL name resolution (query levels with their WITH lists, recursive CTEs visible to their own body, SELECT frames collecting FROM items, "
+             "the LATERAL rule for FROM subqueries, correlated subqueries, DML targets / RETURNING / EXCLUDED, ORDER BY tails, CTE column-list arity, parameters, DML only for updating "
+             "queries).  The harness linearises the pgsql syntax tree the real translator returns for every corpus query into the resolver's events (it knows the shape of the tree, "
+             "not the rules) and TLC validates each statement's stream: every qualified reference must name a visible FROM item and a column it provides, every FROM name a schema "
+             "table or a CTE in scope."),
+    "design_ref": "DESIGN.md 4/C03",
+    "note": ("Bare names are resolved leniently; SQL kept as text inside the tree (formatting literals, text arguments of the traversal harness functions) is opaque; column lists of "
+             "function calls in FROM and of SELECT * are unknown.  Eight known findings (updating clauses and expansions in query parts that are followed by another WITH, "
+             "UNWIND before updates, multi-variable DELETE, SET reading its own target); one member of the family was repaired (6c30bc9)."),
+    "technique": "TLA+ name-resolution model validating the event stream linearised from the real translator's SQL syntax tree for every corpus query",
+}
+
 CLAIMED["C04"] = {
     "level": "model_checking",
     "text": ("PgLex.tla is a model of PostgreSQL's lexical structure (strings with '' under standard_conforming_strings, E'' escapes, quoted identifiers, -- and nested /* */ comments, "
@@ -276,5 +290,4 @@ CLAIMED["C08"] = {
 _NB = "not built yet in this round (design in DESIGN.md section 4)"
 NOT_APPLICABLE = {
     "C01": "needs the emitted SQL executed on PostgreSQL; no SQL engine exists in this sandbox and a TLA+ model of PostgreSQL would verify the model, not DAWGS (DESIGN.md section 5)",
-    "C03": _NB, 
 }
